@@ -164,6 +164,12 @@ Fixpoint for_each_pos (body : heap -> Z -> nat -> heap * outcome) (h : heap) (i 
 
 Definition nonempty (l : list nat) : bool := match l with [] => false | _ => true end.
 
+(* [for item in self: <put item into self>]: the walk over self's own growing list never reaches the end -- unless one
+   of the items it meets raises (a Document among them: its parentNode cannot be set), which ends the loop with that
+   exception.  [r] is the loop run over the items the walk meets before it starts to meet its own copies. *)
+Definition self_loop (r : heap * outcome) : heap * outcome :=
+  match r with (h1, ROk _) => (h1, RHang) | bad => bad end.
+
 (* Node.append(newChild):
        if newChild.nodeType == Node.DOCUMENT_FRAGMENT_NODE:
            for item in newChild: self.append(item, setParent=setParent)
@@ -176,7 +182,8 @@ Fixpoint append_f (fuel : nat) (h : heap) (self c : nat) : heap * outcome :=
   | O => (h, RFuel)
   | S f =>
       if is_frag h c then
-        if Nat.eqb c self && nonempty (children h c) then (h, RHang)
+        if Nat.eqb c self && nonempty (children h c)
+        then self_loop (for_each (fun h1 x => append_f f h1 self x) h (children h c))
         else bind (for_each (fun h1 x => append_f f h1 self x) h (children h c)) (fun h1 _ => set_position h1 self c)
       else set_position (set_children h self (children h self ++ [c])) self c
   end.
@@ -193,7 +200,11 @@ Fixpoint insert_f (fuel : nat) (h : heap) (self : nat) (i : Z) (c : nat) : heap 
   | S f =>
       if is_frag h c then
         let i0 := if (i <? 0)%Z then Z.max (i + Z.of_nat (length (children h self))) 0 else i in
-        if Nat.eqb c self && nonempty (children h c) then (h, RHang)
+        if Nat.eqb c self && nonempty (children h c)
+        then (* inserting at i0, i0+1, ... into the list that is being walked: the walk meets the first max(i0,1) items
+                and then only copies of them *)
+             self_loop (for_each_pos (fun h1 j x => insert_f f h1 self j x) h i0
+                          (firstn (Nat.max 1 (Nat.min (Z.to_nat i0) (length (children h c)))) (children h c)))
         else bind (for_each_pos (fun h1 j x => insert_f f h1 self j x) h i0 (children h c)) (fun h1 _ => set_position h1 self c)
       else set_position (set_children h self (py_insert i c (children h self))) self c
   end.
@@ -264,7 +275,8 @@ Definition set_item (h : heap) (self : nat) (i : Z) (c : nat) : heap * outcome :
   | None => (h, RCrash E_INDEX)
   | Some k =>
       if is_frag h c then
-        if Nat.eqb c self && nonempty (children h c) then (h, RHang)
+        if Nat.eqb c self && nonempty (children h c)
+        then self_loop (for_each_pos (fun h1 j x => insert_f fuel0 h1 self j x) h (Z.of_nat k) (firstn (Nat.max 1 k) (children h c)))
         else
           let items := children h c in
           bind (for_each_pos (fun h1 j x => insert_f fuel0 h1 self j x) h (Z.of_nat k) items) (fun h1 _ =>
@@ -277,7 +289,8 @@ Definition set_item (h : heap) (self : nat) (i : Z) (c : nat) : heap * outcome :
 (* Node.extend(other):  for item in other: self.append(item)   return self
    [other] is a node (its child list is walked; never ends when other is self and not empty) ... *)
 Definition extend_node (h : heap) (self other : nat) : heap * outcome :=
-  if Nat.eqb other self && nonempty (children h other) then (h, RHang)
+  if Nat.eqb other self && nonempty (children h other)
+  then self_loop (for_each (fun h1 x => append_f fuel0 h1 self x) h (children h other))
   else bind (for_each (fun h1 x => append_f fuel0 h1 self x) h (children h other)) (fun h1 _ => (h1, ROk (Some self))).
 (* ... or a plain Python list of nodes *)
 Definition extend_list (h : heap) (self : nat) (items : list nat) : heap * outcome :=
